@@ -358,3 +358,16 @@ theorem ax_partition_lengths (P : ℕ → Prop) [DecidablePred P] (n : ℕ) :
   have h := List.length_eq_length_filter_add (l := List.range n) (fun i => decide (P i))
   simp only [List.length_range] at h
   exact h.symm
+
+/-! ### G-mode: operands of negation nodes -/
+
+theorem ax_bigsum_neg (f : ℕ → ℝ) (n : ℕ) : ∑ i ∈ Finset.range n, -f i = -∑ i ∈ Finset.range n, f i :=
+  Finset.sum_neg_distrib f
+
+theorem ax_bigprod_neg (f : ℕ → ℝ) (n : ℕ) :
+    ∏ i ∈ Finset.range n, -f i = (if n % 2 = 0 then 1 else -1) * ∏ i ∈ Finset.range n, f i := by
+  rw [Finset.prod_neg, Finset.card_range]
+  congr 1
+  rcases Nat.even_or_odd n with h | h
+  · rw [h.neg_one_pow, if_pos (Nat.even_iff.mp h)]
+  · rw [h.neg_one_pow, if_neg (by rw [Nat.odd_iff] at h; omega)]
